@@ -757,6 +757,46 @@ impl C {
         self.tr.ev(json!({"ev": "CloneHalf", "h": c.hd, "h2": n.hd}));
         n
     }
+    /// `dst.clone_from(&src)` on the concrete half / combined types (an older object refreshed from a live one):
+    /// afterwards dst is a copy of src, whatever it held before
+    pub fn clone_from_conn(&mut self, dst: &mut Conn, src: &Conn) {
+        let done = match (&mut dst.st, &src.st) {
+            (State::Whole(a), State::Whole(b2)) => match (a, b2) {
+                (Cr::V(x), Cr::V(y)) => { x.clone_from(y); true }
+                (Cr::T(x), Cr::T(y)) => { x.clone_from(y); true }
+                (Cr::WC(x), Cr::WC(y)) => { x.clone_from(y); true }
+                (Cr::WS(x), Cr::WS(y)) => { x.clone_from(y); true }
+                _ => false,
+            },
+            (State::Parts(e1, d1), State::Parts(e2, d2)) => {
+                let e = match (e1, e2) {
+                    (En::V(x), En::V(y)) => { x.clone_from(y); true }
+                    (En::T(x), En::T(y)) => { x.clone_from(y); true }
+                    (En::WC(x), En::WC(y)) => { x.clone_from(y); true }
+                    (En::WS(x), En::WS(y)) => { x.clone_from(y); true }
+                    _ => false,
+                };
+                let d = match (d1, d2) {
+                    (De::V(x), De::V(y)) => { x.clone_from(y); true }
+                    (De::T(x), De::T(y)) => { x.clone_from(y); true }
+                    (De::WC(x), De::WC(y)) => { x.clone_from(y); true }
+                    (De::WS(x), De::WS(y)) => { x.clone_from(y); true }
+                    _ => false,
+                };
+                e && d
+            }
+            _ => false,
+        };
+        if !done {
+            return;
+        }
+        self.tr.ev(json!({"ev": "DropHalf", "h": dst.he}));
+        self.tr.ev(json!({"ev": "DropHalf", "h": dst.hd}));
+        dst.he = self.hid();
+        dst.hd = self.hid();
+        self.tr.ev(json!({"ev": "CloneHalf", "h": src.he, "h2": dst.he}));
+        self.tr.ev(json!({"ev": "CloneHalf", "h": src.hd, "h2": dst.hd}));
+    }
     pub fn drop_conn(&mut self, c: &Conn) {
         self.tr.ev(json!({"ev": "DropHalf", "h": c.he}));
         self.tr.ev(json!({"ev": "DropHalf", "h": c.hd}));
